@@ -4398,7 +4398,9 @@ MANIFEST = {
             'optional arguments, embedding of the optimiser output) and of the '
             'arctangent profiles; tied to the real code on every run by a differential correspondence (recorded Rbf values as the '
             'table of f; one real object and one model object under the same edit sequences) and a failing-input search with exact '
-            'Fraction oracles of each documented formula',
+            'Fraction oracles of each documented formula; cross-cutting cases (non-default and changing working units, aliasing, input '
+            'forms, power-of-two scales with scale-free refusals, falsy values, positional order, file-like models, repeated solves, '
+            'read order) decided against the same oracles',
     'note': 'solve-never-raises and the classical half-width are numerical clauses checked on the real code only (PARTIAL); the '
             'interpolant, log, arctan, sqrt and the minimiser are parameters of the model',
     'technique': 'Lean 4 theorems over a hand-written model + differential correspondence + exact-oracle search',
